@@ -1,10 +1,12 @@
 """C08 - the indexer reports only genuine grains and finds all of them on ideal data.
 
-specs: Indexer.tla (control state of find / scorethem / score_all_pairs, the pass loop of index / do_index and
-       fight_over_peaks - what saveindexing runs - between pair loops, on abstract instances: closest-angle and
-       all-candidates hit lists, strict-then-loose passes, rings_to_use, n, saves anywhere between ring pairs;
-       invariants + liveness + completeness + the competing-owner rule after a save; the variant whose stored errors
-       survive a call must show the duplicate), TraceIndexer.tla (trace validation of recorded real runs).
+specs: Indexer.tla (control state of find / scorethem / score_all_pairs, the pass loop of index / do_index,
+       fight_over_peaks - what saveindexing runs - and reset() between pair loops, on abstract instances: closest-angle
+       and all-candidates hit lists, strict-then-loose passes, rings_to_use, n, saves and resets anywhere between ring
+       pairs; invariants + liveness + completeness + the competing-owner rule after a save + the blank state after a
+       reset and every grain found again by the search that follows; the variant whose stored errors survive a call
+       must show the duplicate, the variant whose reset() hands out the snapshot's own ga array must show the empty
+       search after the second reset), TraceIndexer.tla (trace validation of recorded real runs).
 Mode C: a recording subclass of indexing.indexer logs every pair loop, every find(), every hit popped by scorethem with
        ALL scores taken for it (and the matrices scored), the getind result (and the matrix it was asked about), the
        observed outcome, every fight_over_peaks (ga / gas afterwards, the matrices held) and the ga / ubis / scores
@@ -14,7 +16,11 @@ Routes: indexer(...).score_all_pairs() (also n / rmulmax / rings_to_use, cosine_
        hkl_tol as index() does), indexing.index(colfile), indexing.do_index(cf, ...), indexer_from_colfile,
        indexer_from_colfile_and_ucell, and sessions on one indexer: indexer() + readgvfile(.gve) with the parameters set
        as attributes or through the parameter object (GUI), pair loops with decreasing minpks and saveindexing /
-       saveubis / fight_over_peaks between them, assigntorings / find / scorethem by hand, index() followed by more.
+       saveubis / fight_over_peaks between them, assigntorings / find / scorethem by hand, index() followed by more;
+       reset() before / between / after searches and saves, once and several times, on indexers built every way (an
+       indexer built bare reads its file again afterwards); the tolerances of a pass reaching the object every public
+       way: attributes (then savepars(file) / updateparameters() before the search), the parameter object + loadpars(),
+       a file written by savepars and read back by loadpars(file) over attributes changed in between.
 Independent judgement (c08_lib.py: own reciprocal metric, brute-force hkl list with own absences, own hkl-error count;
        nothing from unitcell.gethkls / uc.B / indexing.calc_drlv2):
        * data: g = U B0 h for the harness's own B0 and hkl list; cells scaled from ~1 A to ~1e3 A (the model is
@@ -25,6 +31,11 @@ Independent judgement (c08_lib.py: own reciprocal metric, brute-force hkl list w
        * every find() hit list is compared with the harness's own angle matching (own hkl families of the two rings)
        * every fight_over_peaks: own table of which accepted matrices hold each peak within hkl_tol, ranked by own error;
          TraceIndexer applies the competing-owner rule to it
+       * every find(): minpks, hkl_tol, cosine_tol, ds_tol, uniqueness, max_grains IN FORCE on the object are the requested
+         ones (whatever savepars / updateparameters / loadpars / reset did before)
+       * every reset(): no peak keeps a grain, no orientation / score / hit is held (TraceIndexer goes on from that
+         state, so a search that still sees old assignments is rejected at its first find); the grains expected at the
+         end are those above the minimum of a pass run since the last reset
        * final state: every reported UBI indexes > the minimum of its pass within the hkl_tol of its pass (own count on
          the supplied g-vectors), det > 0, no two the same lattice, and its cell parameters (all six, as the metric
          L^-1 G L^-T - I) differ from the supplied cell by no more than ONE least-squares step on peaks within hkl_tol
@@ -124,6 +135,31 @@ def make_recorder(indexing):
             self._flush()
             self._emit({"t": "pass", "k": int(k)})
 
+        def reset(self):
+            # reset() swaps the whole __dict__ for a copy of the constructor's snapshot: the record is the harness's, it stays
+            self._flush()
+            keep = dict((k, self.__dict__[k]) for k in ("_rec", "_aux", "_cur", "_npass") if k in self.__dict__)
+            Base.reset(self)
+            self.__dict__.update(keep)
+            self._cur = None
+            if self.__dict__.get("gv") is not None:
+                self._emit_reset()
+            else:                            # built without g-vectors: the state is whole again after the next readgvfile
+                self._reset_pending = True
+
+        def _emit_reset(self):
+            d = self.__dict__
+            ga = d.get("ga")
+            self._reset_pending = False
+            self._emit({"t": "reset", "ga": [] if ga is None else [int(x) for x in np.asarray(ga).ravel()],
+                        "nubis": len(d.get("ubis") or []), "nscores": len(d.get("scores") or []), "nhits": len(d.get("hits") or [])})
+
+        def readgvfile(self, *a, **k):
+            r = Base.readgvfile(self, *a, **k)
+            if self.__dict__.get("_reset_pending"):
+                self._emit_reset()
+            return r
+
         def score_all_pairs(self, n=None, rmulmax=None, rings_to_use=None):
             self._flush()
             if type(self)._cfg.get("auto_pass"):
@@ -139,7 +175,8 @@ def make_recorder(indexing):
             early = self.hits is before
             hl = [] if early else [[int(i) + 1, int(j) + 1] for (_, i, j) in self.hits]
             self._emit({"t": "find", "r1": int(self.ring_1), "r2": int(self.ring_2), "early": bool(early), "hits": hl},
-                       {"minpks": float(self.minpks), "tol": float(self.hkl_tol), "cosine_tol": float(self.cosine_tol)})
+                       {"minpks": float(self.minpks), "tol": float(self.hkl_tol), "cosine_tol": float(self.cosine_tol),
+                        "ds_tol": float(self.ds_tol), "uniqueness": float(self.uniqueness), "max_grains": float(self.max_grains)})
             if not isinstance(self.hits, LogList):
                 self.hits = LogList(self.hits if self.hits is not None else [], self)
 
@@ -192,6 +229,7 @@ def make_recorder(indexing):
                 kind = "accept"
                 c["score"] = int(self.scores[-1]) if len(self.scores) else -1
                 a["k"] = len(self.ubis) - 1
+                a["ubi_acc"] = np.array(self.ubis[-1], float)      # as stored at acceptance (a later reset() forgets it)
             elif a["getind"]:
                 kind = "reject"
             else:
@@ -276,15 +314,44 @@ def default_pars(sim, noise, scale, rng):
                 max_grains=[100, 100, 2][int(rng.integers(0, 3))] if noise else 100)
 
 
-def run_history(ind, history, plan, sap, repeat, cid, k0=0):
-    """the operations of one session on one indexer (see run_case); k0 = settings already used (index() ran them)"""
+def run_history(ind, history, plan, sap, repeat, cid, k0=0, rebuild=None):
+    """the operations of one session on one indexer (see run_case); k0 = settings already used (index() ran them);
+    rebuild = what the route has to do after reset() to hold its g-vectors / parameters again (route gve)"""
     k = k0
     nfile = 0
+    need_pass = False
     for op in history:
-        if op[0] == "pass":
+        if op[0] in ("sap", "pair", "fight", "save") and need_pass:
+            raise common.MachineryError("history of case %s: %s after reset() without a pass that sets the tolerances" % (cid, op[0]))
+        if op[0] == "reset":
+            ind.reset()
+            if rebuild is not None:
+                rebuild(ind)
+            need_pass = True                       # minpks / hkl_tol are the constructor's again
+        elif op[0] == "pass":
             ps = plan[k]
             k += 1
-            ind.minpks, ind.hkl_tol = ps["minpks"], ps["tol"]
+            need_pass = False
+            how = op[1] if len(op) > 1 else None
+            ppath = os.path.join(common.scratch(), "c08_%s_%d.pars" % (cid, k))
+            if how == "gui":                       # through the parameter object, as the GUI and the grid scripts do
+                ind.updateparameters()
+                ind.parameterobj.set_parameters({"minpks": ps["minpks"], "hkl_tol": ps["tol"]})
+                ind.loadpars()
+            else:                                  # as attributes, as index() / do_index() do
+                ind.minpks, ind.hkl_tol = ps["minpks"], ps["tol"]
+            if how == "savepars":                  # the settings are written down for the record before the search
+                ind.savepars(ppath)
+            elif how == "update":
+                ind.updateparameters()
+            elif how == "file":                    # written, changed by hand, read back: the file's values are in force
+                ind.savepars(ppath)
+                ind.minpks, ind.hkl_tol = ps["minpks"] + 7, 3 * ps["tol"]
+                ind.loadpars(ppath)
+            elif how not in (None, "gui"):
+                raise common.MachineryError("unknown way of setting the tolerances %r" % (how,))
+            if os.path.exists(ppath):
+                os.remove(ppath)
             ind.rec_pass(k)
             for _ in range(repeat):
                 ind.score_all_pairs(**sap)
@@ -357,8 +424,10 @@ def run_case(chk, ctx, rng, sp, cid):
     sap = dict(sp.get("sap") or {})
     if sp.get("pick_rings"):
         sap["rings_to_use"] = sorted(int(r) for r in rng.choice(8, size=int(sp["pick_rings"]), replace=False))
-    history = [tuple(op) for op in (sp.get("history") or [("pass",)] * len(plan))]
-    if sum(1 for op in history if op[0] == "pass") != len(plan):
+    after = [tuple(op) for op in (sp.get("after") or [])]
+    n_after = sum(1 for op in after if op[0] == "pass")          # settings index() does not get: the session afterwards uses them
+    history = [tuple(op) for op in (sp.get("history") or [("pass",)] * (len(plan) - n_after))]
+    if sum(1 for op in history if op[0] == "pass") != len(plan) - n_after:
         raise common.MachineryError("history of case %s does not hold one pass per setting" % cid)
     meta = {"case": cid, "spec": sp, "cell": name, "scale": scale, "ngrains": ng, "noise": noise, "nspurious": nspur, "pars": p,
             "route": route, "seed": common.seed(), "boundary": boundary}
@@ -378,15 +447,17 @@ def run_case(chk, ctx, rng, sp, cid):
                     path = os.path.join(common.scratch(), "c08_%s.gve" % cid)
                     L.write_gve(path, cell, cen, wavelength, gv)
                     ind = RecIndexer()
-                    ind.readgvfile(path, quiet=True)
-                    if sp.get("gui_pars"):                   # as the GUI does: through the parameter object
-                        ind.updateparameters()
-                        ind.parameterobj.set_parameters(dict(p))
-                        ind.loadpars()
-                    else:                                    # as scripts do
-                        for key, val in p.items():
-                            setattr(ind, key, val)
-                    os.remove(path)
+
+                    def rebuild(ind):                            # also after reset(): an indexer built bare holds nothing then
+                        ind.readgvfile(path, quiet=True)
+                        if sp.get("gui_pars"):                   # as the GUI does: through the parameter object
+                            ind.updateparameters()
+                            ind.parameterobj.set_parameters(dict(p))
+                            ind.loadpars()
+                        else:                                    # as scripts do
+                            for key, val in p.items():
+                                setattr(ind, key, val)
+                    rebuild(ind)
                 else:
                     old = indexing.indexer
                     indexing.indexer = RecIndexer
@@ -398,20 +469,25 @@ def run_case(chk, ctx, rng, sp, cid):
                             ind = indexing.indexer_from_colfile(make_colfile(ctx, sim, wavelength), **p)
                     finally:
                         indexing.indexer = old
-                run_history(ind, history, plan, sap, sp.get("repeat", 1), cid)
+                try:
+                    run_history(ind, history, plan, sap, sp.get("repeat", 1), cid, rebuild=rebuild if route == "gve" else None)
+                finally:
+                    if route == "gve" and os.path.exists(path):
+                        os.remove(path)
             elif route == "index":
                 RecIndexer._cfg = {"auto_pass": True}
                 old = indexing.indexer
                 indexing.indexer = RecIndexer
                 try:
-                    ind = indexing.index(make_colfile(ctx, sim, wavelength), npk_tol=[(ps["minpks"], ps["tol"]) for ps in plan],
+                    ind = indexing.index(make_colfile(ctx, sim, wavelength),
+                                         npk_tol=[(ps["minpks"], ps["tol"]) for ps in plan[:len(plan) - n_after]],
                                          cosine_tol=p["cosine_tol"], ds_tol=p["ds_tol"], max_grains=p["max_grains"],
                                          rmulmax=sap.get("rmulmax"), rings_to_use=sap.get("rings_to_use"), maxpairs=sap.get("n"))
                 finally:
                     indexing.indexer = old
-                if sp.get("after") and isinstance(ind, RecIndexer):
+                if after and isinstance(ind, RecIndexer):
                     RecIndexer._cfg = {}
-                    run_history(ind, [tuple(op) for op in sp["after"]], plan, sap, 1, cid, k0=len(plan))
+                    run_history(ind, after, plan, sap, 1, cid, k0=len(plan) - n_after)
                 p["uniqueness"] = 0.5                       # index() leaves the constructor's default
             elif route == "do_index":
                 dox = sp["do_index"]
@@ -520,6 +596,8 @@ def run_case(chk, ctx, rng, sp, cid):
     trial_lo = []                                        # own count of the trial matrix each reported one was refined from
     nfights = 0
     fights_at = []                                       # grains accepted when each fight_over_peaks ran
+    nresets = 0
+    live = None                                          # settings used since the last reset() (None: never reset)
     nviol0 = len(chk.violations)
 
     def bad(what, extra=None):
@@ -528,13 +606,33 @@ def run_case(chk, ctx, rng, sp, cid):
     for e, a in zip(ev, aux):
         if e["t"] == "pass":
             k_pass = e["k"] - 1
+            if live is not None and k_pass not in live:
+                live.append(k_pass)
+        elif e["t"] == "reset":
+            # the object is as the constructor left it: no peak has a grain, nothing is held; what was reported before is
+            # forgotten and the searches that follow must find it again (TraceIndexer judges the logged state)
+            stats["resets_judged"] += 1
+            if nub:
+                stats["resets_with_grains"] += 1
+            if len(e["ga"]) != len(gvi) or any(x != -1 for x in e["ga"]) or e["nubis"] or e["nscores"] or e["nhits"]:
+                bad("reset() number %d on this indexer (%d grains held before): %d peaks still belong to a grain, %d orientations / %d "
+                    "scores / %d hits are still held" % (nresets + 1, nub, sum(1 for x in e["ga"] if x != -1), e["nubis"], e["nscores"],
+                                                         e["nhits"]))
+            ga = np.full(len(gvi), -1)
+            nub = 0
+            acc_pass, bound_of, trial_lo, fights_at = [], [], [], []
+            live = []
+            nresets += 1
         elif e["t"] == "find":
             ps = plan[min(k_pass, len(plan) - 1)]
             want = ps.get("_exact", ps["minpks"])
             if abs(a["tol"] - ps["tol"]) > 1e-12 or abs(a["minpks"] - want) > 1e-9 * max(1.0, abs(want)):
                 bad("pass %d ran with minpks %r hkl_tol %r, requested %r %r" % (k_pass + 1, a["minpks"], a["tol"], want, ps["tol"]))
-            if abs(a["cosine_tol"] - p["cosine_tol"]) > 1e-15:
-                bad("find ran with cosine_tol %r, requested %r" % (a["cosine_tol"], p["cosine_tol"]))
+            for key in ("cosine_tol", "ds_tol", "uniqueness", "max_grains"):
+                if abs(a[key] - p[key]) > 1e-15:
+                    bad("find ran with %s %r, requested %r" % (key, a[key], p[key]))
+            if nresets:
+                stats["finds_after_reset"] += 1
             if not e["early"]:
                 stats["find_events"] += 1
             if not e["early"] and clean[e["r1"]] and clean[e["r2"]]:
@@ -609,14 +707,14 @@ def run_case(chk, ctx, rng, sp, cid):
                         {"ubi": a["gi_ubi"].tolist()})
             if e["kind"] == "accept":
                 # the peaks handed to the new grain are those its REPORTED orientation indexes (Idx of the specification)
-                if a.get("k") is not None and a["k"] < len(ind.ubis) and a["getind"]:
-                    mlo, mhi = L.mask_range(L.hkl_err2(ind.ubis[a["k"]], gvi), tol)
+                if a.get("ubi_acc") is not None and a["getind"]:
+                    mlo, mhi = L.mask_range(L.hkl_err2(a["ubi_acc"], gvi), tol)
                     m = np.zeros(len(gvi), bool)
                     m[np.array(e["ind"], int) - 1] = True
                     stats["grain_peaks_judged"] += 1
                     if (mlo & ~m).any() or (m & ~mhi).any():
                         bad("the peaks assigned to new grain %d (%d) are not those its reported orientation indexes within hkl_tol %g (%d..%d)" % (
-                            a["k"], int(m.sum()), tol, int(mlo.sum()), int(mhi.sum())), {"ubi": ind.ubis[a["k"]].tolist()})
+                            a["k"], int(m.sum()), tol, int(mlo.sum()), int(mhi.sum())), {"ubi": a["ubi_acc"].tolist()})
                 ga[np.array(e["ind"], int) - 1] = nub + 1
                 nub += 1
                 acc_pass.append(min(k_pass, len(plan) - 1))
@@ -625,6 +723,10 @@ def run_case(chk, ctx, rng, sp, cid):
                 trial_lo.append(max(L.count_range(L.hkl_err2(U, gvi), tol)[0] for U in cands))
                 if k_pass > 0:
                     stats["accepted_in_later_pass"] += 1
+                if nresets:
+                    stats["accepted_after_reset"] += 1
+                if nresets > 1:
+                    stats["accepted_after_second_reset"] += 1
     tolmax = max(ps["tol"] for ps in plan)
     for k, u in enumerate(ind.ubis):
         if k >= len(acc_pass):
@@ -683,8 +785,11 @@ def run_case(chk, ctx, rng, sp, cid):
     if complete and name.split("~")[0] in OUTSIDE_QUANTIFIER:
         complete = "observe"
     meta["completeness_judged"] = bool(complete)
+    plan_live = plan if live is None else [plan[k] for k in live if k < len(plan)]     # what was asked for since the last reset()
     if complete:
         stats["complete_runs"] += 1
+        if nresets:
+            stats["complete_runs_after_reset"] += 1
         problems = []
         nexp = 0
         for g, t in enumerate(sim["ubis"]):
@@ -692,7 +797,7 @@ def run_case(chk, ctx, rng, sp, cid):
             # above the minimum of some pass, counted on everything supplied (an accidental peak of another grain counts):
             # a grain holding exactly minpks peaks is NOT above it; whether it may be reported all the same is the soundness
             # clause's business (the reported matrix must index more than minpks)
-            above = any(L.count_range(L.hkl_err2(t, gv_supplied), ps["tol"])[0] > ps.get("_exact", ps["minpks"]) for ps in plan)
+            above = any(L.count_range(L.hkl_err2(t, gv_supplied), ps["tol"])[0] > ps.get("_exact", ps["minpks"]) for ps in plan_live)
             if above:
                 nexp += 1
                 stats["grains_expected"] += 1
@@ -731,6 +836,11 @@ def run_case(chk, ctx, rng, sp, cid):
         stats["lowmin_class_%s_%s" % (name.split("~")[0], "all" if p["cosine_tol"] < 0 else "closest")] += 1
     if nfights:
         stats["runs_with_fights"] += 1
+    if nresets:
+        stats["runs_with_reset_" + route] += 1
+    for op in history + after:
+        if op[0] == "pass" and len(op) > 1:
+            stats["pass_set_by_" + op[1]] += 1
     if p["cosine_tol"] < 0:
         stats["allmode_runs"] += 1
         stats["allmode_hits"] += sum(len(e["hits"]) for e in ev if e["t"] == "find")
@@ -875,6 +985,34 @@ def make_plan(tier, rng):
                  # a wide tolerance: grains share peaks, fight_over_peaks has owners to choose between
                  dict(cell="tetragonal", ng=4, pars=dict(hkl_tol=0.1, cosine_tol=0.02), sep_tol=0.1, scale=sc(),
                       history=[("pass",), ("fight",), ("fight",), ("sap",)])]
+        # histories with reset() (the object forgets its grains: what follows must find every grain again, once) on indexers
+        # built every way, before / between / after searches and saves, once and several times; and tolerances that reach
+        # the object every public way before a search: attributes then savepars(file) / updateparameters(), the
+        # parameter object then loadpars(), a parameter file written by savepars and read back by loadpars(file)
+        plan += [dict(cell="cubicF", ng=3, pass_fracs=[(0.5, 0.02), (0.5, 0.02), (0.6, 0.02)], scale=sc(),
+                      history=[("pass",), ("reset",), ("pass",), ("reset",), ("pass", "savepars"), ("fight",)]),
+                 dict(cell=["monoclinic", "hexagonal", "tetragonalI"][int(rng.integers(0, 3))], ng=int(rng.integers(2, 4)),
+                      pass_fracs=[(0.5, 0.02), (0.4, 0.02)], scale=sc(),
+                      history=[("reset",), ("reset",), ("pass", "update"), ("reset",), ("pass",), ("sap",)]),
+                 dict(cell=drawn_cell(rng, CLASSES[int(rng.integers(0, 6))]), ng=2, route="api", ucell=bool(rng.integers(0, 2)),
+                      pass_fracs=[("rows", 0.02), ("rows", 0.02), ("rows", 0.02)], pars=dict(cosine_tol=-0.002),
+                      history=[("reset",), ("pass",), ("fight",), ("reset",), ("pass", "update"), ("fight",), ("reset",), ("pass", "gui")]),
+                 dict(cell="hexagonal", ng=3, dropout=True, route="gve", pass_fracs=[(0.8, 0.02), (0.3, 0.02), (0.3, 0.02), (0.8, 0.01), (0.3, 0.02)],
+                      pars=dict(ds_tol=0.005), gui_pars=True,
+                      history=[("pass",), ("save",), ("pass", "gui"), ("reset",), ("pass", "gui"), ("save",), ("reset",), ("pass", "file"),
+                               ("pass", "savepars"), ("save",)]),
+                 dict(cell="orthorhombicC", ng=3, dropout=True, route="gve", pass_fracs=[(0.93, 0.01), (0.5, 0.03), (0.5, 0.03)], scale=sc(),
+                      history=[("pass", "savepars"), ("pass", "update"), ("saveubis",), ("reset",), ("pass", "file"), ("save",)]),
+                 dict(cell="cubicI", ng=3, dropout=True, route="index", pass_fracs=[(0.93, 0.01), (0.5, 0.02), (0.5, 0.02), (0.5, 0.02)],
+                      sap=dict(rmulmax=12), after=[("reset",), ("pass",), ("fight",), ("reset",), ("pass", "savepars")], complete=True),
+                 # strict then loose on poorer grains, the settings written down / pushed to the parameter object before each
+                 # search: a grain below the strict minimum may only come out of the loose pass
+                 dict(cell="tetragonal", ng=4, dropout=True, pass_fracs=[(0.975, 0.01), (0.6, 0.03)], scale=sc(),
+                      history=[("pass", "savepars"), ("pass", "update")]),
+                 dict(cell="cubicF", ng=4, dropout=True, route="api", pass_fracs=[(0.93, 0.01), (0.5, 0.03)],
+                      history=[("pass", "update"), ("fight",), ("pass", "file")]),
+                 dict(cell="orthorhombic", ng=3, noise=0.002, nspur=30, pass_fracs=[(0.7, 0.015), (0.4, 0.05), (0.4, 0.05)], scale=sc(),
+                      history=[("pass", "gui"), ("pass", "savepars"), ("reset",), ("pass", "file")])]
         # tolerance grid
         plan += [dict(cell="cubicF", ng=3, pars=dict(hkl_tol=0.01, cosine_tol=0.0005)),
                  dict(cell="tetragonal", ng=3, pars=dict(hkl_tol=0.1, cosine_tol=0.02), sep_tol=0.1, scale=sc()),
@@ -931,6 +1069,24 @@ def make_plan(tier, rng):
                           history=[("pass",), ("saveubis",), ("save",), ("pair", 0, 1), ("save",), ("pair", 1, 2), ("pair", 0, 2), ("fight",), ("sap",)]),
                      dict(cell=nm, ng=3, dropout=True, route="index", pass_fracs=[(0.93, 0.01), (0.5, 0.02)], sap=dict(rmulmax=12),
                           after=[("fight",), ("fight",), ("sap",)])]
+        # reset() / savepars / updateparameters / loadpars in the history, every lattice, every way of building the indexer
+        for nm in BASE + MORE:
+            how = ["savepars", "update", "gui", "file"]
+            plan += [dict(cell=nm, ng=3, pass_fracs=[(0.5, 0.02), (0.5, 0.02), (0.6, 0.02)], scale=sc(),
+                          history=[("pass",), ("reset",), ("pass", how[int(rng.integers(0, 4))]), ("reset",), ("pass", how[int(rng.integers(0, 4))]), ("fight",)]),
+                     dict(cell=nm, ng=2, route="api", ucell=bool(rng.integers(0, 2)), pass_fracs=[("rows", 0.02), ("rows", 0.02), ("rows", 0.02)],
+                          pars=dict(cosine_tol=-0.002), scale=sc(),
+                          history=[("reset",), ("pass",), ("fight",), ("reset",), ("pass", "update"), ("fight",), ("reset",), ("pass", "gui")]),
+                     dict(cell=nm, ng=3, dropout=True, route="gve", pass_fracs=[(0.93, 0.01), (0.5, 0.03), (0.5, 0.03), (0.5, 0.03)],
+                          gui_pars=bool(rng.integers(0, 2)),
+                          history=[("pass", "savepars"), ("pass", "update"), ("save",), ("reset",), ("pass", "file"), ("save",), ("reset",), ("pass", "gui")]),
+                     dict(cell=nm, ng=3, dropout=True, route="index", pass_fracs=[(0.93, 0.01), (0.5, 0.02), (0.5, 0.02), (0.5, 0.02)],
+                          sap=dict(rmulmax=12), after=[("reset",), ("pass",), ("fight",), ("reset",), ("pass", how[int(rng.integers(0, 4))])]),
+                     dict(cell=nm, ng=4, dropout=True, pass_fracs=[(0.93, 0.01), (0.5, 0.03)], scale=sc(),
+                          history=[("pass", how[int(rng.integers(0, 4))]), ("pass", how[int(rng.integers(0, 4))])])]
+        for nm in BASE:
+            plan += [dict(cell=nm, ng=3, noise=0.002, nspur=30, pass_fracs=[(0.7, 0.015), (0.4, 0.05), (0.4, 0.05)], scale=sc(),
+                          history=[("pass", "gui"), ("pass", "savepars"), ("reset",), ("pass", "file")])]
         for nm in BASE:
             plan += [dict(cell=nm, ng=3, noise=0.001, nspur=30, route="gve", pass_fracs=[(0.7, 0.03), (0.4, 0.05), (0.3, 0.05)],
                           history=[("pass",), ("save",), ("pass",), ("save",), ("pass",), ("save",), ("sap",)]),
@@ -981,13 +1137,15 @@ def run(tier, replay=None):
            "Base": indexing.indexer, "stats": stats}
     chk.rule = ("Indexer.tla explored exhaustively on the ideal and the noisy abstract instance (all hit orders, all ring-pair "
                 "orders; closest-angle and all-candidates hit lists, strict-then-loose passes, rings_to_use, n, up to two "
-                "fight_over_peaks calls anywhere between ring pairs; the stale-buffer variant must violate NoRepeat); real runs: "
+                "fight_over_peaks calls and two reset() calls anywhere between ring pairs; the stale-buffer variant must violate "
+                "NoRepeat, the shared-snapshot reset variant Completeness); real runs: "
                 "own forward model (own B, brute-force hkls) at cell scales 0.25 / 1 / 10 / 250: noise-free grains (1..8) of 17 "
                 "pinned lattices and of cells drawn inside the 7 classes through score_all_pairs (plain, repeated, with n / "
                 "rmulmax / rings_to_use, cosine_tol < 0, strict-then-loose settings), index(), do_index(), indexer_from_colfile"
                 "(_and_ucell), every search mode x every lattice with the minimum just above two reciprocal rows (all pairs and "
                 "drawn rings_to_use), sessions on one indexer (readgvfile, pair loops with saveindexing / saveubis / "
-                "fight_over_peaks between them, find / scorethem by hand, index() then more) (genuineness + completeness + "
+                "fight_over_peaks / reset() between them, tolerances set as attributes + savepars / updateparameters, through "
+                "the parameter object + loadpars, through a parameter file, find / scorethem by hand, index() then more) (genuineness + completeness + "
                 "soundness) and noisy / spurious-peak runs over a grid of tolerances, minpks, uniqueness, max_grains "
                 "(soundness); every run recorded and validated event by event by TraceIndexer, every logged score / getind mask "
                 "/ hit list / fight_over_peaks outcome recomputed by the harness; non-trivial = at least one grain accepted; "
@@ -1018,6 +1176,9 @@ def run(tier, replay=None):
                        "ring numbers and ring d* come from the indexer's unitcell (C03); the hkl families, multiplicities and "
                        "allowed angles of those rings are the harness's own; hit lists are judged on ring pairs whose rings are "
                        "clean (no other distinct own d* within 1.01 ds_tol)",
+                       "reset() returns the object to what the constructor left, tolerances included: the histories set minpks / "
+                       "hkl_tol again (a pass) before they search after a reset, and an indexer built without g-vectors reads its "
+                       "file and takes its parameters again; completeness after a reset is asked of the passes run since",
                        "do_index: the requested minimum is frac * sum over foridx rings holding peaks of int(multiplicity * "
                        "omega_range / 180) with the harness's own multiplicities"]
     if replay:
@@ -1026,17 +1187,21 @@ def run(tier, replay=None):
         chk.notes["replayed"] = replay
     # ---- the specification itself
     if tier == "quick":
-        cfgs = ["Indexer_q", "Indexer_all", "Indexer_2p", "Indexer_r1", "Indexer_cap", "Indexer_noisy", "Indexer_save", "Indexer_save_stale"]
+        cfgs = ["Indexer_q", "Indexer_all", "Indexer_2p", "Indexer_r1", "Indexer_cap", "Indexer_noisy", "Indexer_save", "Indexer_save_stale",
+                "Indexer_reset", "Indexer_reset_shared"]
     else:
         cfgs = ["Indexer_q", "Indexer_all", "Indexer_2p", "Indexer_r1", "Indexer_cap", "Indexer_noisy", "Indexer_save", "Indexer_save_stale",
-                "Indexer_t", "Indexer_noisy_t"]
+                "Indexer_reset", "Indexer_reset_shared", "Indexer_t", "Indexer_noisy_t"]
     # FRESH = FALSE (fight_over_peaks keeping its stored errors): the model must show the duplicate (the invariants see the class)
-    expected_violation = {"Indexer_save_stale": "NoRepeat"}
+    # SHARE = TRUE (reset() handing out the snapshot's own ga array): after the second reset the search must come out empty
+    expected_violation = {"Indexer_save_stale": "NoRepeat", "Indexer_reset_shared": "Completeness"}
     need_of = {"Indexer_r1": ("Find", "PopHit", "PopSkip", "PopAccept", "EndScore"),
                "Indexer_2p": ("Find", "PopHit", "PopSkip", "PopLow", "PopAccept", "EndScore", "NextPass"),
                "Indexer_t": ("Find", "PopHit", "PopSkip", "PopLow", "PopAccept", "EndScore", "NextPass"),
                "Indexer_save": ("Find", "PopHit", "PopSkip", "PopAccept", "EndScore", "NextPass", "Save"),
                "Indexer_save_stale": ("Find", "PopHit", "PopAccept", "EndScore", "Save"),
+               "Indexer_reset": ("Find", "PopHit", "PopSkip", "PopAccept", "EndScore", "NextPass", "Save", "Reset"),
+               "Indexer_reset_shared": ("Find", "PopHit", "PopAccept", "EndScore", "Reset"),
                "Indexer_noisy_t": ("Find", "PopHit", "PopSkip", "PopLow", "PopAccept", "PopReject", "EndScore", "NextPass")}
 
     def tlc(c):
@@ -1105,7 +1270,9 @@ def run(tier, replay=None):
     for key in ("runs_sap", "runs_index", "runs_do_index", "runs_api", "find_judged", "scores_judged", "getind_judged", "cell_bound_finite",
                 "reorient_branch", "accepted_in_later_pass", "allmode_runs", "pair_loops_with_n", "pair_loops_restricted", "complete_runs",
                 "scale_0.25", "scale_1", "scale_10", "scale_250", "runs_gve", "fights_judged", "fights_repeated_with_grains", "genuine_judged",
-                "lowmin_runs_all", "lowmin_runs_closest") + tuple("lowmin_class_%s_all" % nm for nm in BASE + MORE + CLASSES):
+                "lowmin_runs_all", "lowmin_runs_closest", "resets_judged", "resets_with_grains", "accepted_after_second_reset",
+                "complete_runs_after_reset", "runs_with_reset_sap", "runs_with_reset_api", "runs_with_reset_gve", "runs_with_reset_index",
+                "pass_set_by_savepars", "pass_set_by_update", "pass_set_by_gui", "pass_set_by_file") + tuple("lowmin_class_%s_all" % nm for nm in BASE + MORE + CLASSES):
         if not stats[key] and not chk.violations:
             raise common.MachineryError("vacuity: family %s was never exercised" % key)
     chk.exhaustive = False
@@ -1176,6 +1343,44 @@ def selftest(chk=None, recs=None):
         base = keep
     elif chk is not None and chk.tier != "replay" and not chk.violations:
         raise common.MachineryError("selftest: no recorded session with two fight_over_peaks calls")
+    # a session with reset(): a reset that leaves a peak with its grain / an orientation held, and a search after a reset
+    # that still sees the old assignments (find comes back empty-handed on rings full of free peaks), must be rejected
+    def reset_then_grain(r):
+        seen = False
+        for e in r["ev"]:
+            seen = seen or e["t"] == "reset"
+            if seen and e["t"] == "pop" and e["kind"] == "accept":
+                return True
+        return False
+    rbase = next((r for r in recs if reset_then_grain(r)), None)
+    rextra = []
+    if rbase is not None:
+        base, keep = rbase, base
+        rb = clone("rbase")
+        bad9 = clone("bad9")
+        e = next(e for e in bad9["ev"] if e["t"] == "reset")
+        e["ga"][0] = 1
+        bad10 = clone("bad10")
+        e = next(e for e in bad10["ev"] if e["t"] == "reset")
+        e["nubis"] = 1
+        bad11 = clone("bad11")                     # what a polluted snapshot does: the search after the reset finds nothing
+        k = next(i for i, e in enumerate(bad11["ev"]) if e["t"] == "reset")
+        out, skipping = [], False
+        for i, e in enumerate(bad11["ev"]):
+            if i > k and e["t"] == "find" and not e["early"]:
+                e = dict(e, early=True, hits=[])
+                skipping = True
+            elif i > k and e["t"] in ("pop", "end") and skipping:
+                continue
+            elif e["t"] in ("find", "sap", "pass", "reset", "fight"):
+                skipping = False
+            out.append(e)
+        bad11["ev"] = out
+        rextra = [rb, bad9, bad10, bad11]
+        base = keep
+    elif chk is not None and chk.tier != "replay" and not chk.violations:
+        raise common.MachineryError("selftest: no recorded session with a grain accepted after reset()")
+    extra = extra + rextra
     tmp = common.Check(PROP, "quick")
     v = validate(tmp, [base, bad1, bad2, bad3, bad4, bad5] + extra, "selftest")
     if chk is not None:
@@ -1184,7 +1389,9 @@ def selftest(chk=None, recs=None):
         chk.tlc_runs += tmp.tlc_runs
     if not v[base["id"]]["ok"] or any(v[b]["ok"] for b in ("bad1", "bad2", "bad3", "bad4", "bad5")):
         raise common.MachineryError("selftest: TraceIndexer verdicts wrong: %s" % v)
-    if extra and (not v["fbase"]["ok"] or any(v[b]["ok"] for b in ("bad6", "bad7", "bad8"))):
+    if rextra and (not v["rbase"]["ok"] or any(v[b]["ok"] for b in ("bad9", "bad10", "bad11"))):
+        raise common.MachineryError("selftest: TraceIndexer verdicts on reset wrong: %s" % {k: v[k] for k in ("rbase", "bad9", "bad10", "bad11")})
+    if fbase is not None and (not v["fbase"]["ok"] or any(v[b]["ok"] for b in ("bad6", "bad7", "bad8"))):
         raise common.MachineryError("selftest: TraceIndexer verdicts on fight_over_peaks wrong: %s" % {k: v[k] for k in ("fbase", "bad6", "bad7", "bad8")})
     # the harness's own competing-owner table: best error wins, the earlier grain on an exact tie, none outside the tolerance
     u1 = np.eye(3)
